@@ -37,6 +37,7 @@ LEVEL_TEXT = (
     "Every evaluation any optimiser or history makes is checked against a from-scratch evaluation at the point where "
     "the calculator is quiescent, so the caching logic is decided directly rather than through end results. Sampled "
     "histories; held = held on the changes counted in the evidence."
+    " Histories include refused calls, batches that end in a refusal followed by the repair, a second likelihood function worked on inside the first one's batches, and functions queried before their alignment was given."
 )
 LEVEL_NOTE = "trusted: the cells' own calc functions (C02/C05 decide those); the wrapper only reads calculator state and works on copies"
 TECHNIQUE = "runtime monitoring: invariant at a wrapped quiescent point (shadow re-evaluation of Calculator.change) + history vs fresh-object comparison"
